@@ -45,19 +45,21 @@ def hashCallNode (le : H → H → Bool) (task : Nat) (args : List HV) (res : HV
 
 /-! ### job trees and what is recorded for them -/
 
-/-- a finished job with `child_jobs` in the order the scheduler holds them; `seen = false`: the child had no call
-hash yet when its parent ended (possible only for a `fork_thread` child) -/
+/-- a finished job with `child_jobs` in the order the scheduler holds them.  `args`: the preprocessed arguments
+(`job.args`: handles forked) that the args hash covers; `eargs`: the evaluated arguments (`job.eval_args`) whose value
+hashes the Argument rows record.  `seen = false`: the child had no call hash yet when its parent ended (possible only
+for a `fork_thread` child) -/
 inductive JT where
-  | node (task : Nat) (args : List HV) (res : HV) (seen : Bool) (kids : List JT)
+  | node (task : Nat) (args eargs : List HV) (res : HV) (seen : Bool) (kids : List JT)
   deriving Repr, Inhabited
 
 def JT.seen : JT → Bool
-  | .node _ _ _ s _ => s
+  | .node _ _ _ _ s _ => s
 
 mutual
   /-- `job.call_hash` -/
   def callHash (le : H → H → Bool) : JT → H
-    | .node t a r _ kids => hashCallNode le t a r (kidHashes le kids)
+    | .node t a _ r _ kids => hashCallNode le t a r (kidHashes le kids)
   /-- `[child.call_hash for child in job.child_jobs if child.call_hash]` -/
   def kidHashes (le : H → H → Bool) : List JT → List H
     | [] => []
@@ -77,14 +79,14 @@ def argRows (h : H) : Nat → List HV → List Row
   | i, v :: vs => Row.arg h i v :: argRows h (i + 1) vs
 
 /-- what `record_call_node` writes for one job, given the child hashes it lists -/
-def ownRows (le : H → H → Bool) (t : Nat) (a : List HV) (r : HV) (khs : List H) : List Row :=
+def ownRows (le : H → H → Bool) (t : Nat) (a ea : List HV) (r : HV) (khs : List H) : List Row :=
   let h := hashCallNode le t a r khs
-  Row.node h :: (argRows h 0 a ++ khs.map (Row.edge h))
+  Row.node h :: (argRows h 0 ea ++ khs.map (Row.edge h))
 
 mutual
   /-- all rows recorded for the jobs of a tree that ended (an unseen child has not ended) -/
   def rows (le : H → H → Bool) : JT → List Row
-    | .node t a r _ kids => ownRows le t a r (kidHashes le kids) ++ rowsL le kids
+    | .node t a ea r _ kids => ownRows le t a ea r (kidHashes le kids) ++ rowsL le kids
   def rowsL (le : H → H → Bool) : List JT → List Row
     | [] => []
     | k :: ks => (if k.seen then rows le k else []) ++ rowsL le ks
@@ -120,7 +122,7 @@ inductive Ev (P : Prog) : Expr → HV → List JT → Prop
   | add {a b : Expr} {va vb : HV} {ka kb ks : List JT} :
       Ev P a va ka → Ev P b vb kb → ks.Perm (ka ++ kb) → Ev P (.add a b) (addV va vb) ks
   | call {n : Nat} {a : Expr} {va r : HV} {ka kids ks : List JT} :
-      Ev P a va ka → Ev P (P.body n va) r kids → ks.Perm (JT.node n [va] r true kids :: ka) →
+      Ev P a va ka → Ev P (P.body n va) r kids → ks.Perm (JT.node n [va] [va] r true kids :: ka) →
       Ev P (.call n a) r ks
   | condT {c a b : Expr} {vc va : HV} {kc ka ks : List JT} :
       Ev P c vc kc → truthy vc = true → Ev P a va ka → ks.Perm (kc ++ ka) → Ev P (.cond c a b) va ks
@@ -139,7 +141,7 @@ def evalC (P : Prog) : Nat → Expr → Option (HV × List JT)
     match evalC P n a with
     | some (va, ka) =>
       match evalC P n (P.body t va) with
-      | some (r, kids) => some (r, JT.node t [va] r true kids :: ka)
+      | some (r, kids) => some (r, JT.node t [va] [va] r true kids :: ka)
       | none => none
     | none => none
   | n + 1, .cond c a b =>
@@ -223,7 +225,7 @@ def firstEntries (es : List Entry) : List Entry := firstFrom [] es
 
 /-- the same job with the `seen` flag set -/
 def JT.setSeen (s : Bool) : JT → JT
-  | .node t a r _ kids => .node t a r s kids
+  | .node t a ea r _ kids => .node t a ea r s kids
 
 /-! ### a concrete order on call hashes (proved total in Lemmas/TimingOrder; the driver sorts with it) -/
 
@@ -336,12 +338,13 @@ def laneJobs (co : Nat → Option Nat) : Nat → List Lane → List JT
       match l.step with
       | none =>
         let a := forkArg h0 ((co (2 * i)).getD 0)
-        [JT.node taskUse [a, .int l.b] (.int l.b) true []]
+        [JT.node taskUse [a, .int l.b] [h0, .int l.b] (.int l.b) true []]
       | some z =>
         let a1 := forkArg h0 ((co (2 * i + 1)).getD 0)
         let h1 := HV.happly a1.hname taskStep a1 z        -- `apply_call(pre_call_hash = eval hash of step(a1, z))`
         let a2 := forkArg h1 ((co (2 * i)).getD 0)
-        [JT.node taskStep [a1, .int z] h1 true [], JT.node taskUse [a2, .int l.b] (.int l.b) true []]
+        [JT.node taskStep [a1, .int z] [h0, .int z] h1 true [],
+         JT.node taskUse [a2, .int l.b] [h1, .int l.b] (.int l.b) true []]
     js ++ laneJobs co (i + 1) r
 
 /-- the handle each job passes, in terms of the counter values: needed to replay `handle_forks` -/
@@ -369,7 +372,7 @@ def replay (recount : Bool) (lanes : List Lane) : List Nat → Forks → List En
 def handleTree (recount : Bool) (lanes : List Lane) (entries : List Nat) (extra : List JT) : JT :=
   let f := (replay recount lanes entries {} []).1
   let res := lanes.foldl (fun s l => s + l.b) 0
-  JT.node taskMain [] (.int res) true (laneJobs (getKey f.key) 0 lanes ++ extra)
+  JT.node taskMain [] [] (.int res) true (laneJobs (getKey f.key) 0 lanes ++ extra)
 
 /-! ### a side condition of the tie: `Scheduler._evaluate_apply` evaluates two equal expressions under one parent
 job only once (`_pending_expr`, C06); the model has no such memo, so the harness discards workflows in which a task
@@ -387,7 +390,7 @@ def hasDup : List Expr → Bool
 
 mutual
   def dupIn (P : Prog) : JT → Bool
-    | .node t a _ _ kids =>
+    | .node t a _ _ _ kids =>
       (match a with
        | [va] => hasDup (subExprs (P.body t va))
        | _ => false) || dupInL P kids
